@@ -419,6 +419,32 @@ bool check_obj(const Case &c, const PointCloud &src, mc::Ctx &ctx) {
       ctx.fail("obj:cloud-points-changed|" + klass_of(c), "expected " + rg::show(exp.as_set()) + " got " + rg::show(got));
       return false;
     }
+    // second generation: what the reader returned for a points-only file is a Mesh WITHOUT faces (that is also what
+    // ReadMeshFromFile gives); writing that object with the Mesh overload and reading it again must keep the same points
+    {
+      EncoderBuffer eb2;
+      ObjEncoder enc2;
+      if (!enc2.EncodeToBuffer(out, &eb2)) {
+        ctx.fail("obj:encoder-refused|face-less-mesh," + klass_of(c), "");
+        return false;
+      }
+      DecoderBuffer db2;
+      db2.Init(eb2.data(), eb2.size());
+      ObjDecoder dec2;
+      Mesh out2;
+      const Status st2 = dec2.DecodeFromBuffer(&db2, &out2);
+      ctx.count("obj_faceless_mesh_roundtrips");
+      if (!st2.ok()) {
+        ctx.fail("obj:own-output-rejected|face-less-mesh", st2.error_msg_string() + " | file: " + std::string(eb2.data(), std::min<size_t>(eb2.size(), 400)));
+        return false;
+      }
+      rg::Geom got2;
+      if (!obj_decoded_geom(c, out2, nullptr, atts, &got2, ctx)) return false;
+      if (got2.as_set() != exp.as_set()) {
+        ctx.fail("obj:cloud-points-changed|face-less-mesh", "expected " + rg::show(exp.as_set()) + " got " + rg::show(got2));
+        return false;
+      }
+    }
     return true;
   }
   if (got != exp) {
@@ -1006,6 +1032,40 @@ void run_tool_case(int file_index, int cl, mc::Ctx &ctx) {
   }
   ctx.state(mc::hash_combine(gt.hash(), mc::hash_str(lt)));
   ctx.nontrivial_unique();
+  // the same input (and, for meshes, its STL form) with -point_cloud: the tool may refuse a format it cannot read as a point cloud,
+  // but it must end with an exit status (no sanitizer report, no signal), and what it accepts must decode to a readable file
+  if (cl == 0) {
+    std::vector<std::string> inputs = {in_path};
+    const std::string stl_path = stem + ".pc.stl";
+    if (!c.cloud) {
+      EncoderBuffer sb;
+      StlEncoder se;
+      if (se.EncodeToBuffer(static_cast<const Mesh &>(*g), &sb).ok() && write_file(stl_path, sb.data(), sb.size())) {
+        inputs.push_back(stl_path);
+        cleanup.files.push_back(stl_path);
+      }
+    }
+    for (const std::string &ip : inputs) {
+      rc = spawn({tool_path("draco_encoder"), "-point_cloud", "-i", ip, "-o", drc_path, "-qp", "0", "-qt", "0", "-qn", "0", "-cl", "0"}, log_path);
+      ctx.count(k_tool_process_spawns);
+      ctx.count("tool_point_cloud_flag_runs");
+      if (tool_trouble("draco_encoder(-point_cloud)", rc)) return;
+      if (rc != 0) {
+        ctx.count("tool_point_cloud_flag_refused");
+        continue;
+      }
+      rc = spawn({tool_path("draco_decoder"), "-i", drc_path, "-o", out_path}, log_path);
+      ctx.count(k_tool_process_spawns);
+      if (tool_trouble("draco_decoder(after -point_cloud)", rc)) return;
+      std::string o2;
+      rg::Geom g2;
+      std::string l2, e2;
+      if (rc != 0 || !read_file(out_path, &o2) || !geom_of_file(o2, out_ext, &g2, &l2, &e2)) {
+        ctx.fail("tools:point-cloud-flag-output-unreadable|" + kl, "exit " + std::to_string(rc) + " " + e2);
+        return;
+      }
+    }
+  }
 }
 
 void add_tool_space(mc::Runner &R, const std::string &name, std::vector<int> files, bool quick, bool thorough) {
